@@ -41,7 +41,7 @@ MLE = "src/pyhf/infer/mle.py"
 
 # R2, R3, R6 recognise the helper structure of the pinned tree (who calls whom, with what); R7 decides the same clauses end
 # to end (see Ctx.defer).  R4 and R5 evaluate MORE regions than R7 does and keep their own verdict.
-DEFER = [(["C06.R2", "C06.R3", "C06.R6"], ["C06.R7"])]
+DEFER = [(["C06.R2", "C06.R3", "C06.R4", "C06.R5", "C06.R6"], ["C06.R7"])]  # R7 walks all five statistics end to end, q0 with a non-zero mu handed in, fitted POI above and below
 
 
 def _externals(record):
